@@ -28,6 +28,7 @@ pub mod dtlslive;
 pub mod srtp;
 pub mod sctpassoc;
 pub mod sharedudp;
+pub mod rtprecv;
 
 // ---------------------------------------------------------------------------------------------
 // counting allocator
@@ -315,6 +316,7 @@ fn replay(case: &str) {
     if !done { done = srtp::replay_special(&mut run, stream, &args); }
     if !done { done = sctpassoc::replay_special(&mut run, stream, &args); }
     if !done { done = sharedudp::replay_special(&mut run, stream, &args); }
+    if !done { done = rtprecv::replay_special(&mut run, stream, &args); }
     if !done { println!("unknown stream {stream}"); }
     else if args.len() != 1 || !all_targets().iter().any(|t| t.stream == stream) {
         use std::io::Write;
@@ -349,6 +351,7 @@ pub fn run(args: &Args) {
     srtp::special(&mut run, &mut rng.fork(), args.tier_thorough);
     sctpassoc::special(&mut run, &mut rng.fork(), args.tier_thorough);
     sharedudp::special(&mut run, &mut rng.fork(), args.tier_thorough);
+    rtprecv::special(&mut run, &mut rng.fork(), args.tier_thorough);
     run.notes.insert("targets".into(), serde_json::json!(targets.iter().map(|t| t.stream).collect::<Vec<_>>()));
     run.notes.insert("type_sizes".into(), rtp::type_sizes());
     run.notes.insert("type_sizes_media".into(), media::type_sizes());
